@@ -1,9 +1,10 @@
 (** C03 at the library level, TCP: every method of the TcpFlow class, as dispatched by [exec].
-    The packet-level facts come from Proofs/C03/Transport.v; here the library bodies (argument
-    conversion, seq/ack overrides, write-back of the flow object) are walked. *)
+    The packet-level facts come from Proofs/C03/Transport.v and LibTcpOps.v; here the library bodies
+    (argument conversion, seq/ack overrides, write-back of the flow object) are walked. *)
 From RS Require Import Base.Bytes Base.Outcome Bind.Types Pkt.Csum Pkt.Hdrs Pkt.Packet Ez.Tcp
   Interp.Val Interp.Eval Lib.LibBase Lib.StdLib Lib.Ipv4Lib Spec.Wire
-  Proofs.BytesLemmas Proofs.Tactics Proofs.C02.TcpIp Proofs.C03.Transport Proofs.C08.LibTac Proofs.C03.LibCalls.
+  Proofs.BytesLemmas Proofs.Tactics Proofs.C02.TcpIp Proofs.C03.Transport Proofs.C08.LibTac Proofs.C03.LibCalls
+  Proofs.C03.LibTcpOps.
 From RSGen Require Import Catalogue.
 From Coq Require Import Arith Lia.
 Open Scope N_scope.
@@ -26,18 +27,6 @@ Definition tcp_kinds : list (string * tcp_ret) := [
   ("client_close", RPackets); ("server_close", RPackets);
   ("client_reset", RPackets); ("server_reset", RPackets) ].
 
-(** addresses, ports and framing of a flow never change *)
-Definition same_socks (f' f : tcp_flow) : Prop :=
-  tf_cl f' = tf_cl f /\ tf_sv f' = tf_sv f /\ tf_raw f' = tf_raw f.
-
-Lemma same_socks_refl f : same_socks f f. Proof. repeat split. Qed.
-Lemma same_socks_trans f1 f2 f3 : same_socks f1 f2 -> same_socks f2 f3 -> same_socks f1 f3.
-Proof. intros (A & B & C) (A' & B' & C'). repeat split; congruence. Qed.
-
-(** the sender and receiver address of a segment sent by the client (server) side *)
-Definition side_src (client : bool) (f : tcp_flow) : N := fst (if client then tf_cl f else tf_sv f).
-Definition side_dst (client : bool) (f : tcp_flow) : N := fst (if client then tf_sv f else tf_cl f).
-
 (** header-only methods: a PSH|ACK header carrying the side's current counters, checksum field zero *)
 Definition hdr_of (client : bool) (f : tcp_flow) : tcp_hdr :=
   let me := if client then tf_cl f else tf_sv f in
@@ -47,71 +36,22 @@ Definition hdr_of (client : bool) (f : tcp_flow) : tcp_hdr :=
      th_ack := if client then tf_sv_seq f else tf_cl_seq f;
      th_flags := 24; th_win := 65535; th_csum := 0; th_urp := 0 |}.
 
+(** a packet of flow [f]: a checksummed segment of the model ([tcp_good], Proofs/C03/Transport.v) whose frame
+    decodes to an IPv4 header between the flow's addresses and a verifying TCP segment ([tcp_wire]) *)
+Definition tcp_pkt_ok (f : tcp_flow) (p : packet) : Prop := tcp_good p /\ tcp_wire f p.
+
+Lemma sent_pkt_ok f p : sent_by f p -> tcp_pkt_ok f p.
+Proof. intros H. split; [eapply sent_good, H|apply sent_wire, H]. Qed.
+Lemma pkt_ok_socks f' f p : same_socks f' f -> tcp_pkt_ok f' p -> tcp_pkt_ok f p.
+Proof. intros S (A & B). split; [exact A|eapply tcp_wire_socks; eassumption]. Qed.
+
 Definition tcp_result_ok (k : tcp_ret) (f : tcp_flow) (v : val) : Prop :=
   match k with
-  | RPackets => exists ps, conv_pktgen v = Ok ps /\ Forall tcp_good ps
+  | RPackets => exists ps, conv_pktgen v = Ok ps /\ Forall (tcp_pkt_ok f) ps
   | RRawSeg client => exists b, v = VStr b /\ tcp_ok (side_src client f) (side_dst client f) b = true
   | RHdr client => v = VStr (tcp_ser (hdr_of client f))
   | RNone => v = VNil
   end.
-
-(* ------------------------------------------------------------------ flow operations keep the sockets *)
-Lemma tx_socks (client : bool) f s f' p :
-  (if client then flow_cl_tx f s else flow_sv_tx f s) = Ok (f', p) -> same_socks f' f.
-Proof.
-  unfold flow_cl_tx, flow_sv_tx. destruct client; intros H; binv H; ok_inv H; repeat split.
-Qed.
-
-Ltac tx_chain H :=
-  binv H;
-  repeat match goal with
-  | E : flow_cl_tx _ _ = Ok _ |- _ => apply (tx_socks true) in E
-  | E : flow_sv_tx _ _ = Ok _ |- _ => apply (tx_socks false) in E
-  end.
-
-Ltac socks_done :=
-  repeat match goal with H : same_socks _ _ |- _ => destruct H as (? & ? & ?) end;
-  repeat split; congruence.
-
-Lemma open_socks f f' ps : flow_open f = Ok (f', ps) -> same_socks f' f.
-Proof. unfold flow_open. intros H. tx_chain H. ok_inv H. socks_done. Qed.
-Lemma client_close_socks f f' ps : flow_client_close f = Ok (f', ps) -> same_socks f' f.
-Proof. unfold flow_client_close. intros H. tx_chain H. ok_inv H. socks_done. Qed.
-Lemma server_close_socks f f' ps : flow_server_close f = Ok (f', ps) -> same_socks f' f.
-Proof. unfold flow_server_close. intros H. tx_chain H. ok_inv H. socks_done. Qed.
-
-Lemma message_socks (client : bool) f b sa off f' ps :
-  (if client then flow_client_message f b sa off else flow_server_message f b sa off) = Ok (f', ps) -> same_socks f' f.
-Proof.
-  unfold flow_client_message, flow_server_message. destruct client; intros H; tx_chain H;
-    (destruct sa; [tx_chain H|]); ok_inv H; socks_done.
-Qed.
-
-(** a data segment: the segment before checksumming, its addresses, the flow afterwards *)
-Lemma seg_addrs (client : bool) f b off s :
-  (if client then flow_cl_seg f b off else flow_sv_seg f b off) = Ok s ->
-  ip_src (ts_ip s) = side_src client f /\ ip_dst (ts_ip s) = side_dst client f.
-Proof.
-  unfold flow_cl_seg, flow_sv_seg, seg_push_bytes, seg_append_data, seg_update_tot_len, side_src, side_dst.
-  destruct client; intros H; binv H; ok_inv H; split; reflexivity.
-Qed.
-
-Lemma data_segment_inv (client : bool) f b f' s :
-  flow_twf f -> wf_bytes b -> 20 + len b < 65536 ->
-  (if client then flow_client_data_segment f b else flow_server_data_segment f b) = Ok (f', s) ->
-  tcp_good (seg_packet s) /\ flow_twf f' /\ same_socks f' f
-  /\ tcp_ok (side_src client f) (side_dst client f) (seg_tcpseg s) = true.
-Proof.
-  intros Hf Hb Hfit H.
-  destruct (flow_data_segment_good client f b f' s Hf Hb Hfit H) as (G & W).
-  split; [exact G|]. split; [exact W|].
-  unfold flow_client_data_segment, flow_server_data_segment in H.
-  destruct client; binv H; ok_inv H; (split; [repeat split|]).
-  - pose proof (flow_seg_twf true f b 0 _ Hf Hb Hfit E) as Hs. destruct (seg_addrs true f b 0 _ E) as (A1 & A2).
-    destruct (tcp_csum_verifies _ _ Hs E1) as (V & I & _). rewrite I, A1, A2 in V. exact V.
-  - pose proof (flow_seg_twf false f b 0 _ Hf Hb Hfit E) as Hs. destruct (seg_addrs false f b 0 _ E) as (A1 & A2).
-    destruct (tcp_csum_verifies _ _ Hs E1) as (V & I & _). rewrite I, A1, A2 in V. exact V.
-Qed.
 
 (* ------------------------------------------------------------------ overrides *)
 Lemma pop_twf f2 f c s : flow_twf f2 -> flow_twf f ->
@@ -159,23 +99,26 @@ Ltac ov_inv H P Hf Hsq Hak :=
 Definition post (k : tcp_ret) (f : tcp_flow) (r : tcp_flow * val) : Prop :=
   tcp_result_ok k f (snd r) /\ flow_twf (fst r) /\ same_socks (fst r) f.
 
+Lemma sent_all_ok f ps : Forall (sent_by f) ps -> Forall (tcp_pkt_ok f) ps.
+Proof. apply Forall_impl. intros p. apply sent_pkt_ok. Qed.
+
 Lemma gen_family f (op : tcp_flow -> outcome (tcp_flow * list packet)) r :
   flow_twf f ->
-  (forall f' ps, op f = Ok (f', ps) -> Forall tcp_good ps /\ flow_twf f' /\ same_socks f' f) ->
+  (forall f' ps, flow_twf f -> op f = Ok (f', ps) -> Forall (sent_by f) ps /\ flow_twf f' /\ same_socks f' f) ->
   (do (f2, ps) <- op f; Ok (f2, VPktGen ps)) = Ok r -> post RPackets f r.
 Proof.
-  intros Hf K H. binv H. ok_inv H. destruct (K _ _ E) as (G & W & S).
-  split; [eexists; split; [reflexivity|exact G]|]. split; assumption.
+  intros Hf K H. binv H. ok_inv H. destruct (K _ _ Hf E) as (G & W & S).
+  split; [eexists; split; [reflexivity|apply sent_all_ok, G]|]. split; assumption.
 Qed.
 
 Lemma one_family (client : bool) f r :
   flow_twf f ->
   (do p <- (if client then flow_client_reset else flow_server_reset) f; Ok (f, VPkt p)) = Ok r -> post RPackets f r.
 Proof.
-  intros Hf H. destruct (flow_ack_reset_good f Hf) as (_ & _ & R1 & R2).
-  binv H. ok_inv H.
+  intros Hf H. binv H. ok_inv H.
   split; [|split; [exact Hf|apply same_socks_refl]].
-  eexists. split; [reflexivity|]. repeat constructor. destruct client; [apply R1|apply R2]; exact E.
+  eexists. split; [reflexivity|]. constructor; [|constructor]. apply sent_pkt_ok, (reset_sent client); [exact Hf|].
+  destruct client; exact E.
 Qed.
 
 Lemma message_family (client : bool) f sa sq ak fo b r :
@@ -192,9 +135,10 @@ Proof.
   match goal with Em : _ = Ok (?f2, ?ps) |- _ =>
     assert (Em' : (if client then flow_client_message f1 b sa fo else flow_server_message f1 b sa fo) = Ok (f2, ps))
       by (destruct client; exact Em);
-    destruct (flow_message_good client f1 b sa fo f2 ps W1 Hb Hfit Em') as (G & W2);
-    split; [exact W2|]; split; [exact (message_socks client _ _ _ _ _ _ Em')|];
-    exists ps; split; [reflexivity|exact G]
+    destruct (message_sent client f1 b sa fo f2 ps W1 Hb Hfit Em') as (G & W2 & S2);
+    split; [exact W2|]; split; [exact S2|];
+    exists ps; split; [reflexivity|];
+    apply sent_all_ok; eapply Forall_impl; [|exact G]; intros p; apply sent_socks, S1
   end.
 Qed.
 
@@ -216,12 +160,13 @@ Proof.
   match goal with Em : _ = Ok (?f2, ?s) |- _ =>
     assert (Em' : (if client then flow_client_data_segment f1 b else flow_server_data_segment f1 b) = Ok (f2, s))
       by (destruct client; exact Em);
-    destruct (data_segment_inv client f1 b f2 s W1 Hb Hfit Em') as (G & W2 & S2 & V);
+    destruct (data_segment_sent client f1 b f2 s W1 Hb Hfit Em') as (G & W2 & S2 & V);
     split; [exact W2|]; split; [exact S2|];
     destruct (side_same client f1 f S1) as (Q1 & Q2); rewrite Q1, Q2 in V;
     destruct raw; cbn [tcp_result_ok];
     [ exists (seg_tcpseg s); split; [reflexivity|exact V]
-    | exists [seg_packet s]; split; [reflexivity|repeat constructor; exact G] ]
+    | exists [seg_packet s]; split; [reflexivity|];
+      constructor; [apply sent_pkt_ok, (sent_socks _ _ _ S1 G)|constructor] ]
   end.
 Qed.
 
@@ -234,10 +179,10 @@ Proof.
   intros Hf Hsq Hak H. destruct r as [f' v].
   ov_inv H (tcp_result_ok RPackets f) Hf Hsq Hak.
   intros f1 f2 w W1 S1 E.
-  destruct (flow_ack_reset_good f1 W1) as (A1 & A2 & _).
   binv E. ok_inv E. split; [exact W1|]. split; [apply same_socks_refl|].
-  eexists. split; [reflexivity|]. repeat constructor.
-  match goal with Em : _ = Ok _ |- _ => destruct client; [apply A1|apply A2]; exact Em end.
+  eexists. split; [reflexivity|]. constructor; [|constructor].
+  apply sent_pkt_ok, (sent_socks _ _ _ S1), (ack_sent client); [exact W1|].
+  match goal with Em : _ = Ok _ |- _ => destruct client; exact Em end.
 Qed.
 
 Lemma hdr_family (client : bool) f d r :
@@ -282,12 +227,9 @@ Ltac finish k :=
 Ltac slots_shape E slots :=
   destruct slots as [|?s [|?s [|?s [|?s [|?s ?]]]]]; cbv beta iota in E; arity E.
 
-Ltac t_gen good socks Hf :=
+Ltac t_gen sent Hf :=
   match goal with E : _ = Ok (_, _) |- _ =>
-    apply gen_family in E;
-    [ finish RPackets | exact Hf
-    | let f' := fresh "f'" in let ps := fresh "ps" in let Eo := fresh "Eo" in
-      intros f' ps Eo; destruct (good _ _ _ Hf Eo); split; [assumption|]; split; [assumption|eapply socks, Eo] ]
+    apply gen_family in E; [ finish RPackets | exact Hf | intros; eapply sent; eassumption ]
   end.
 
 Ltac t_one c Hf :=
@@ -338,7 +280,7 @@ Proof.
   intros Hms Hin Hfit Hn Hf H. vm_compute in Hms. apply Some_inj in Hms. subst ms.
   cbn [In] in Hin.
   repeat (destruct Hin as [Hin|Hin]; [apply pair_equal_spec in Hin; destruct Hin as [<- <-]|]); [..|contradiction Hin].
-  - (* open *) tcp_enter H Hn. t_gen flow_open_good open_socks Hf.
+  - (* open *) tcp_enter H Hn. t_gen open_sent Hf.
   - (* client_message *) tcp_enter H Hn. slots_shape E slots. binv E. t_message true Hf Hfit.
   - (* server_message *) tcp_enter H Hn. slots_shape E slots. binv E. t_message false Hf Hfit.
   - (* client_segment *) tcp_enter H Hn. slots_shape E slots. binv E. t_segment true false RPackets Hf Hfit.
@@ -351,8 +293,8 @@ Proof.
   - (* server_ack *) tcp_enter H Hn. slots_shape E slots. binv E. t_ack false Hf.
   - (* client_hole *) tcp_enter H Hn. slots_shape E slots. binv E. t_hole true Hf.
   - (* server_hole *) tcp_enter H Hn. slots_shape E slots. binv E. t_hole false Hf.
-  - (* client_close *) tcp_enter H Hn. t_gen flow_client_close_good client_close_socks Hf.
-  - (* server_close *) tcp_enter H Hn. t_gen flow_server_close_good server_close_socks Hf.
+  - (* client_close *) tcp_enter H Hn. t_gen client_close_sent Hf.
+  - (* server_close *) tcp_enter H Hn. t_gen server_close_sent Hf.
   - (* client_reset *) tcp_enter H Hn. t_one true Hf.
   - (* server_reset *) tcp_enter H Hn. t_one false Hf.
 Qed.
@@ -403,16 +345,17 @@ Proof.
       exists fi, name, k. split; [exact A|]. split; [eapply same_socks_trans; eassumption|]. repeat (split; [assumption|]). exact E.
 Qed.
 
-(** every segment a history emits verifies: the packets of every packet-returning call; a byte string is
-    a raw segment that verifies for the flow's addresses in one of the two directions, or the 20-byte
-    header of client_hdr/server_hdr, whose checksum field is zero (it is not a segment) *)
+(** every segment a history emits verifies: every packet of every packet-returning call is a frame that
+    decodes to an IPv4 header between the flow's addresses and a TCP segment verifying against them
+    ([tcp_pkt_ok]); a byte string is a raw segment that verifies for the flow's addresses in one of the
+    two directions, or the 20-byte header of client_hdr/server_hdr, whose checksum field is zero (it is
+    not a segment) *)
 Corollary tcp_history_verifies e a cs h f vs h' :
   nth_error h a = Some (OTcp f) -> flow_twf f ->
   Forall (tcp_call_on a) cs ->
   run_hist e cs h = Some (vs, h') ->
   Forall (fun v =>
-    (forall ps, conv_pktgen v = Ok ps ->
-       Forall (fun p => exists s, p = seg_packet s /\ tcp_ok (ip_src (ts_ip s)) (ip_dst (ts_ip s)) (seg_tcpseg s) = true) ps)
+    (forall ps, conv_pktgen v = Ok ps -> Forall (tcp_pkt_ok f) ps)
     /\ (forall b, v = VStr b ->
           tcp_ok (fst (tf_cl f)) (fst (tf_sv f)) b = true \/ tcp_ok (fst (tf_sv f)) (fst (tf_cl f)) b = true
           \/ (length b = 20%nat /\ u16_at b 16 = 0))) vs.
@@ -424,10 +367,11 @@ Proof.
   clear H Hn Hall'. revert vs F2. induction Hall as [|c r Hc Hr IH]; intros vs F2; inversion F2 as [|c0 v r0 vs0 Hv F2']; subst.
   - constructor.
   - constructor; [|apply IH, F2'].
-    destruct (Hv Hc) as (fi & name & k & Wi & (S1 & S2 & S3) & _ & _ & R). destruct k; cbn [tcp_result_ok] in R.
+    destruct (Hv Hc) as (fi & name & k & Wi & Si & _ & _ & R). pose proof Si as (S1 & S2 & S3).
+    destruct k; cbn [tcp_result_ok] in R.
     + destruct R as (ps & Eps & G). split.
       * intros ps' Eps'. rewrite Eps in Eps'. apply Ok_inj in Eps'. subst ps'.
-        eapply Forall_impl; [|exact G]. intros p. apply tcp_good_verifies.
+        eapply Forall_impl; [|exact G]. intros p. apply pkt_ok_socks, Si.
       * intros b -> . discriminate Eps.
     + destruct R as (b & -> & V). split; [intros ps Eps; discriminate Eps|].
       intros b' Eb. injection Eb as <-. unfold side_src, side_dst in V. rewrite S1, S2 in V.
